@@ -69,7 +69,7 @@ P = {'id': 'C18',
              'the stages\' own process_batch (trait default of MapStage / FilterStage / BatchMapStage, BatchMapStage with a batch function); '
              'src/concurrency/async_blob_store.rs (ModelStore.v): AsyncMemoryBlobStore::{new, put, get, remove, len, put_batch, get_batch} with '
              'next_id from 1 truncated to the u32 RecordId, the HashMap as an association list; the trait default put_batch / get_batch as the same '
-             'sequence of puts / gets; WorkStealingExecutor::shutdown and the shutdown check of submit() (ModelLife.v)',
+             'sequence of puts / gets; WorkStealingExecutor::shutdown and the shutdown check of submit() (ModelLife.v); histories on one FiberYield / YieldPoint; BatchCollector over unit / u8 / String items (collector model of Model.v)',
              'spec-only cells (direct oracle, no mechanism model): the running executor on current-thread and multi-thread tokio runtimes, one queue under '
              'OS threads, BatchCollector with its background timeout checker on two threads; panicking stage functions in process_batch / execute_single '
              '(the panic propagates to the caller); oracle breadth (harness/src/c18_wide*.rs, no mechanism model): the queue / executor cells with '
